@@ -1950,6 +1950,9 @@ def run(report):
     groups = report_failures(report, st, pending=pending)
     cov = coverage(st, report.tier, groups)
     cov["pending_findings"] = pending
+    # the LRU cache model the theorems of Conc/LruConc.v speak about (Glob/LRU.v) vs the real fs.lrucache.LRUCache
+    import h_lru
+    cov["lru_model_vs_implementation"] = h_lru.run_lru_model_check(report, report.tier, report.seed)
     return report.finish(proof, cov, assumptions=ASSUMPTIONS)
 
 
